@@ -284,6 +284,10 @@ def main(tier, seed, scale=1.0):
         mall.update(mdrop[b])
     mobs, reports = BH.run_miri("c20m", mprogs, mdrop, flags="-Zmiri-ignore-leaks")
     for b, (rc, err) in reports.items():
+        if BH.classify_miri(err) == "tool":
+            chk.inconc("miri-tool-failure")
+            log("C20: Miri failed on %s without a UB report: %s" % (b, err[-400:].replace("\n", " | ")))
+            continue
         m = re.search(r"error: ([^\n]*)", err)
         chk.violation("miri|%s" % re.sub(r"0x[0-9a-f]+|\d+", "N", m.group(1) if m else "?")[:80],
                       "Miri reports an error in a union impl on fully initialised values (bin %s)\n%s" % (b, err[-3000:]),
